@@ -152,6 +152,21 @@ def impl_writer_formats(d, names):
                         of.close()
                     except Exception:  # noqa
                         pass
+        # --fasta is for standard output only: a named file is written as its name says (or as the input format) all the same
+        for proxied in (False, True):
+            of = F.OutputFiles(proxied=proxied, qualities=True, interleaved=False, file_opener=F.FileOpener(compression_level=1, threads=0))
+            try:
+                w = of.open_record_writer(os.path.join(d, name), force_fasta=True)
+                inner = w._writer if proxied else w
+                cls = type(inner).__name__.lower()
+                row.append("fasta" if "fasta" in cls else "fastq" if "fastq" in cls else cls)
+            except Exception as e:  # noqa
+                row.append("EXC " + type(e).__name__)
+            finally:
+                try:
+                    of.close()
+                except Exception:  # noqa
+                    pass
         out.append((det or "none", row))
     return out
 
@@ -170,13 +185,13 @@ def part_format(ctx, d, dist):
         det_m, fq_m = mo[2 * k].split()
         _, fa_m = mo[2 * k + 1].split()
         det_i, row = impl[k]
-        exp_row = [fq_m, fq_m, fa_m, fa_m]
+        exp_row = [fq_m, fq_m, fa_m, fa_m, fq_m, fq_m]
         ctx.count(("name", nm), det_i != "none")
         dist["name:" + det_i] = dist.get("name:" + det_i, 0) + 1
         if det_i != det_m or row != exp_row:
             ndis += 1
             # is the property itself violated on this name?  (own reading of the documentation)
-            own = [expected_format(nm, True)] * 2 + [expected_format(nm, False)] * 2
+            own = [expected_format(nm, True)] * 2 + [expected_format(nm, False)] * 2 + [expected_format(nm, True)] * 2
             found = row != own
             ctx.violation("output format for a file name: model %s/%s implementation %s/%s" % (det_m, exp_row, det_i, row),
                           {"name": nm, "model": [det_m] + exp_row, "implementation": [det_i] + row, "documented": own, "kind": "format-name"}, found)
@@ -489,6 +504,50 @@ def part_long_records(ctx, d, dist):
                            "what": ("exit %r: %s" % (en, errn)) if en != 0 else "records differ"})
 
 
+def run_stdout_mate(d, pairs, which, cores):
+    """the second (or first) mate of a paired-end run sent to standard output: returns (exit, stdout text, other file text)"""
+    rec = lambda n, sq: "@%s\n%s\n+\n%s\n" % (n, sq, "I" * len(sq))
+    for f in os.listdir(d):
+        if os.path.isfile(os.path.join(d, f)):
+            os.remove(os.path.join(d, f))
+    open(os.path.join(d, "in.1.fastq"), "w").write("".join(rec(n + "/1", a) for n, a, b in pairs))
+    open(os.path.join(d, "in.2.fastq"), "w").write("".join(rec(n + "/2", b) for n, a, b in pairs))
+    o1, o2 = ("-", "out.2.fastq") if which == 1 else ("out.1.fastq", "-")
+    res = R.run_cli(["-a", "ACGTACGTAC", "-A", "TTGCATTGCA", "-o", o1, "-p", o2, "in.1.fastq", "in.2.fastq"], d, cores, trace=False)
+    other = "out.2.fastq" if which == 1 else "out.1.fastq"
+    op = os.path.join(d, other)
+    return res["exit"], res["stdout"], (open(op).read() if os.path.exists(op) else None)
+
+
+def part_stdout_mate(ctx, d, dist):
+    """one of the two paired output files is '-' (standard output): what arrives there is exactly the records that the run with a
+    named file writes into that file (the report then goes to standard error), for one core and for several"""
+    rng = ctx.rng
+    for it in range(ctx.size(2, 10)):
+        pairs = [("pair%d" % i, U.rand_seq(rng, rng.randint(20, 60), "ACGT") + rng.choice(["", "ACGTACGTAC"]),
+                  U.rand_seq(rng, rng.randint(20, 60), "ACGT") + rng.choice(["", "TTGCATTGCA"])) for i in range(rng.choice([3, 8, 30]))]
+        for f in os.listdir(d):
+            if os.path.isfile(os.path.join(d, f)):
+                os.remove(os.path.join(d, f))
+        rec = lambda n, sq: "@%s\n%s\n+\n%s\n" % (n, sq, "I" * len(sq))
+        open(os.path.join(d, "in.1.fastq"), "w").write("".join(rec(n + "/1", a) for n, a, b in pairs))
+        open(os.path.join(d, "in.2.fastq"), "w").write("".join(rec(n + "/2", b) for n, a, b in pairs))
+        ref = R.run_cli(["-a", "ACGTACGTAC", "-A", "TTGCATTGCA", "-o", "ref.1.fastq", "-p", "ref.2.fastq", "in.1.fastq", "in.2.fastq"], d, 1, trace=False)
+        if ref["exit"] != 0:
+            continue
+        want = {1: open(os.path.join(d, "ref.1.fastq")).read(), 2: open(os.path.join(d, "ref.2.fastq")).read()}
+        for which in (2, 1):
+            for cores in (1, 2):
+                code, out, other = run_stdout_mate(d, pairs, which, cores)
+                dist["mate on stdout"] = dist.get("mate on stdout", 0) + 1
+                ctx.count(("stdout-mate", which, cores, len(pairs), it), True)
+                if code != 0 or out != want[which] or other != want[3 - which]:
+                    ctx.violation("a paired output on standard output differs from the same output in a named file [R%d on stdout]" % which,
+                                  {"kind": "stdout-mate", "which": which, "cores": cores, "pairs": [list(p_) for p_ in pairs],
+                                   "what": ("exit %r" % code) if code != 0 else ("standard output holds %d bytes, the named file %d" % (len(out), len(want[which])))})
+                    return
+
+
 def check(ctx):
     ctx.coq()
     ctx.model()
@@ -502,7 +561,7 @@ def check(ctx):
         if os.path.exists(cp):
             for doc in json.load(open(cp)):
                 replay_one(ctx, doc, d)
-        for part in (part_format, part_matrix, part_long_records):
+        for part in (part_format, part_matrix, part_long_records, part_stdout_mate):
             try:
                 part(ctx, d, dist)
             except Exception as e:  # noqa -- a crash of one part is a broken correspondence; the other part still searches
@@ -556,6 +615,21 @@ def replay(doc):
             got = impl_writer_formats(d, [r["name"]])[0]
             print("C19 replay: name %r: implementation %r, documented %r" % (r["name"], got, r["documented"]))
             return 1 if got[1] != r["documented"] else 0
+        if r.get("kind") == "stdout-mate":
+            pairs = [tuple(p_) for p_ in r["pairs"]]
+            R.run_cli  # noqa
+            for f in os.listdir(d):
+                if os.path.isfile(os.path.join(d, f)):
+                    os.remove(os.path.join(d, f))
+            rec = lambda n, sq: "@%s\n%s\n+\n%s\n" % (n, sq, "I" * len(sq))
+            open(os.path.join(d, "in.1.fastq"), "w").write("".join(rec(n + "/1", a) for n, a, b in pairs))
+            open(os.path.join(d, "in.2.fastq"), "w").write("".join(rec(n + "/2", b) for n, a, b in pairs))
+            R.run_cli(["-a", "ACGTACGTAC", "-A", "TTGCATTGCA", "-o", "ref.1.fastq", "-p", "ref.2.fastq", "in.1.fastq", "in.2.fastq"], d, 1, trace=False)
+            want = open(os.path.join(d, "ref.%d.fastq" % r["which"])).read()
+            code, out, other = run_stdout_mate(d, pairs, r["which"], r["cores"])
+            same = code == 0 and out == want
+            print("C19 replay (R%d on standard output, %d cores): exit %r, %s" % (r["which"], r["cores"], code, "same records" if same else "DIFFERENT"))
+            return 0 if same else 1
         if r.get("kind") == "long":
             fasta = r["fasta"]
             ext = "fasta" if fasta else "fastq"
